@@ -10,6 +10,11 @@ FaceEdgeIterImpl::FaceEdgeIterImpl(
         : BaseIter(_mesh, _ref_h, _max_laps)
         , halfedges_(_mesh->face(_ref_h).halfedges())
 {
+    if (halfedges_.empty()) {
+        // a face without halfedges has nothing to circulate over
+        BaseIter::valid(false);
+        return;
+    }
     BaseIter::cur_handle(mesh()->edge_handle(halfedges_[cur_index_]));
 }
 
